@@ -8,8 +8,8 @@ that are not linear (observable times observable, non-numeric operands) are reje
 
 All theorems: ∀ expression trees (any depth, by structural induction), ∀ leaf values in any commutative ring
 (ℝ, ℤ, …), ∀ batches. Model definitions: QV.Model.Composite (`build`, `Obs.apply`, `eval`,
-`Obs.statisticsFromSamples`), executed over `Int` and `Float` against the real operator overloads by the C16
-correspondence check.
+`Obs.statisticsFromSamples`, `Obs.statistics`, `mkSum`, `mkProd`), executed over `Int` and `Float` against the
+real operator overloads and constructors by the C16 correspondence check.
 -/
 import Mathlib.Algebra.Ring.Defs
 import Mathlib.Algebra.Ring.Int.Defs
@@ -410,6 +410,81 @@ theorem C16_statistics_real (e : Expr ℝ) {o : Obs ℝ} (h : build e = .ok (.ob
 
 end stats
 
+/-! ### `statistics()` of a composite: chunked draws merged by the streaming routine (C13) -/
+
+section sampled
+variable {σ : Type}
+
+/-- **C16.3''** `statistics()` of a built composite (any split of the requested samples into chains and successive
+draws): with at least one requested sample and one chain, the call succeeds and returns the one-pass mean / unbiased
+variance / standard error / count of the EXPRESSION evaluated on the leaves' per-sample values of every drawn chain
+state, the count being `T·c ≥ num_samples`; the sampler calls are those of the C13 schedule. (`leaves st` = per-chain
+leaf values on the chain states `st`, one entry per chain.) Composition of `C16_apply_eq_eval` with C13's
+`C13_statistics_one_pass`. -/
+theorem C16_statistics_sampled (env : Stats.Env σ) (e : Expr ℝ) {o : Obs ℝ} (h : build e = .ok (.obs o))
+    (leaves : σ → List (Nat → ℝ)) (a : Stats.Args σ) (hns : 1 ≤ a.numSamples)
+    (hc : 1 ≤ (Stats.chainSetup env a).2) (hrows : ∀ st, (leaves st).length = (Stats.chainSetup env a).2) :
+    ∃ T, Stats.numTimeSteps a.numSamples (Stats.chainSetup env a).2 = .ok T ∧ 1 ≤ T ∧
+      let ds := Stats.draws env (Stats.chainSetup env a).2 a.burnIn a.steps T 0 (Stats.chainSetup env a).1
+      o.statistics env leaves a
+        = .ok (onePass (ds.map (fun d => evalBatch e (leaves d.2))).flatten, ds.map (·.1)) ∧
+      ((ds.map (fun d => evalBatch e (leaves d.2))).flatten).length = T * (Stats.chainSetup env a).2 ∧
+      a.numSamples ≤ T * (Stats.chainSetup env a).2 := by
+  have hfun : (fun st => o.applyBatch (leaves st)) = (fun st => evalBatch e (leaves st)) :=
+    funext (fun st => C16_apply_eq_eval e h (leaves st))
+  obtain ⟨T, hT, hT1, hrest⟩ := C13_statistics_one_pass env (fun st => evalBatch e (leaves st)) a hns hc
+    (fun st => by simp [evalBatch, hrows st])
+  refine ⟨T, hT, hT1, ?_⟩
+  unfold Obs.statistics
+  rw [hfun]
+  exact hrest
+
+end sampled
+
+/-! ### The constructors called directly -/
+
+section ctor
+variable {α : Type}
+
+/-- `SumObservable(o1, o2)` called directly: `TypeError` iff an operand is neither numeric nor an observable
+(nothing else is checked — two plain numbers are accepted), else the object storing both operands in order. -/
+theorem C16_constructor_sum (a b : Arg α) :
+    mkSum a b = if argOk a && argOk b then .ok (.sum a b) else .error .TypeError := by
+  unfold mkSum
+  cases ha : argOk a <;> cases hb : argOk b <;> simp
+
+/-- `ProdObservable(o1, o2)` called directly: `TypeError` iff an operand is neither numeric nor an observable;
+otherwise `ValueError` unless EXACTLY one operand is an observable; then the scalar is stored on the left and the
+observable on the right, whichever order they were given in. -/
+theorem C16_constructor_prod (a b : Arg α) :
+    ((argOk a && argOk b) = false → mkProd a b = .error .TypeError) ∧
+    ((argOk a && argOk b) = true → a.isObs = b.isObs → mkProd a b = .error .ValueError) ∧
+    (∀ k c o, a = .scal k c → b = .obs o → k.numeric = true → mkProd a b = .ok (.prod k c o)) ∧
+    (∀ k c o, a = .obs o → b = .scal k c → k.numeric = true → mkProd a b = .ok (.prod k c o)) := by
+  refine ⟨?_, ?_, ?_, ?_⟩
+  · intro h
+    unfold mkProd
+    cases ha : argOk a <;> cases hb : argOk b <;> simp_all
+  · intro h hobs
+    cases a <;> cases b <;> simp_all [mkProd, argOk, Arg.isObs]
+  · rintro k c o rfl rfl hk
+    simp [mkProd, argOk, hk]
+  · rintro k c o rfl rfl hk
+    simp [mkProd, argOk, hk]
+
+end ctor
+
+section ctor_value
+variable {R : Type} [CommRing R]
+
+/-- what the directly constructed objects evaluate to, at every sample: the sum / the product of the operands' values -/
+theorem C16_constructor_value (vals : Nat → R) (a b : Arg R) {o : Obs R} :
+    (mkSum a b = .ok o → o.apply vals = a.value vals + b.value vals) ∧
+    (mkProd a b = .ok o → o.apply vals = a.value vals * b.value vals) :=
+  ⟨mkSum_value vals, mkProd_value vals⟩
+
+end ctor_value
+
 /-! ### Non-vacuity -/
 
 /-- `-O₀ - 3*O₁ + 1` (the expression of the repository's smoke test) builds, to the nested
@@ -419,9 +494,22 @@ example : build (α := ℤ) (.add (.sub (.neg (.leaf 0)) (.mul (.const .int 3) (
         (.obs (.prod .int (-1) (.prod .int 3 (.leaf 1)))))) (.scal .int 1))) := by
   rfl
 
-/-- `2.5 - O₀` with a numpy float on the left goes through `__rsub__` with a Python float -/
+/-- `2.0 - O₀` with a numpy float on the left goes through `__rsub__`, which receives the numpy scalar itself
+(`__array_ufunc__ = None`: numpy defers instead of re-dispatching with a converted Python float) -/
 example : build (α := ℤ) (.sub (.const .npfloat 2) (.leaf 0))
-    = .ok (.obs (.sum (.scal .float 2) (.obs (.prod .int (-1) (.leaf 0))))) := by rfl
+    = .ok (.obs (.sum (.scal .npfloat 2) (.obs (.prod .int (-1) (.leaf 0))))) := by rfl
+
+/-- a non-numeric operand on the LEFT of an observable (`None`, a `str`, a numpy array, `numpy.int64(3)`, …) is
+rejected by the reflected method's constructor exactly like on the right -/
+example : build (α := ℤ) (.mul (.const .bad 0) (.leaf 0)) = .error .TypeError := by rfl
+example : build (α := ℤ) (.mul (.leaf 0) (.const .bad 0)) = .error .TypeError := by rfl
+
+/-- the direct constructor calls: `SumObservable(2, 3)` is accepted (no observable inside: outside the property),
+`ProdObservable(2, 3)` and `ProdObservable(O₀, O₁)` are `ValueError`s, a `None` operand a `TypeError` -/
+example : mkSum (α := ℤ) (.scal .int 2) (.scal .int 3) = .ok (.sum (.scal .int 2) (.scal .int 3)) := by rfl
+example : mkProd (α := ℤ) (.scal .int 2) (.scal .int 3) = .error .ValueError := by rfl
+example : mkProd (α := ℤ) (.obs (.leaf 0)) (.obs (.leaf 1)) = .error .ValueError := by rfl
+example : mkProd (α := ℤ) (.obs (.leaf 0)) (.scal .bad 0) = .error .TypeError := by rfl
 
 /-- observable × observable is a `ValueError`, a `None` operand a `TypeError`, and the left one wins -/
 example : build (α := ℤ) (.add (.mul (.leaf 0) (.leaf 1)) (.const .bad 0)) = .error .ValueError := by rfl
